@@ -475,7 +475,7 @@ def b_dec(parent, cfg, mk):
     return [A], outs
 
 
-add('Decoder', 'C08', b_dec, lambda c, v: [int(j == v[0]) for j in range(1 << c[0])], [(1,), (2,), (3,), (4,)], [(1,), (2,), (3,), (4,), (5,)])
+add('Decoder', 'C08', b_dec, lambda c, v: [int(j == v[0]) for j in range(1 << c[0])], [(1,), (2,), (3,), (4,), (5,), (6,), (7,)], [(1,), (2,), (3,), (4,), (5,), (6,), (7,), (8,), (9,)])
 
 
 def _sel_ins(cls_name):
@@ -836,7 +836,8 @@ extend(['And', 'Or', 'Xor', 'Nor'], [(2, 64), (3, 65), (2, 100), (9, 3), (12, 1)
 extend(['And2', 'Or2', 'Xor2', 'Nand2', 'Nor2'], [(64,), (65,), (100,)])
 extend(['Not', 'Buf'], [(64, 64), (65, 65), (100, 100)])
 extend(['AndBits', 'OrBits'], [(32,), (64,), (65,), (100,)])
-extend(['Mux', 'Demux'], [(1, 64), (2, 65), (1, 100), (4, 2)])
+extend(['Mux', 'Demux'], [(1, 64), (2, 65), (1, 100), (4, 2), (5, 1), (6, 1)])
+extend(['Demux'], [(7, 1)])
 extend(['OneHotMux', 'Select', 'OneHotDemux'], [(2, 64), (3, 65), (2, 100), (9, 2)])
 extend('SelectDefault', [(2, 64), (2, 100), (9, 2)])
 extend(['Swap', 'Equal', 'Comparator', 'ComparatorSignedUnsigned', 'Max2', 'Min2', 'SignedMax2', 'SignedMin2', 'Repeat', 'BufEnable'], [(64,), (65,), (100,)])
